@@ -9,7 +9,7 @@ def run(tier, seed):
         if ".emit." in o.name and not o.expect_sat: o.replay = rules.replay_pair
     o2, f2 = rules.shift_mapping_obligations("C03"); obs += o2; fns += f2
     o3, m3 = faces.bisector_obligations("C03")
-    obs += [x for x in o3 if "labels_right_is_neighbour" in x.name or "neighbour_position" in x.name or x.expect_sat]; fns.append(m3)
+    obs += [x for x in o3 if "labels_right_is_neighbour" in x.name or "neighbour_position" in x.name or "every_candidate" in x.name or "loop_runs_over" in x.name or x.expect_sat]; fns.append(m3)
     o4, us = faces.face_init_obligations("C03")
     obs += [x for x in o4 if "face_labels" in x.name]; fns += [{"fn": us[1].label, "slice_sha": us[1].sha}]
     # the position the exact predicate sees for a periodic neighbour is generator + shift too (globally consistent clip decisions)
